@@ -95,6 +95,27 @@ func (x *run) stepRemoveChecked(rs *repState, s *sim.Step) error {
 		}
 	} else {
 		id = x.pickBug(rs, s.B)
+		// through the entity API an entity can also be removed when it is only held as a
+		// remote-tracking ref (fetched, not merged; or removed locally and fetched again)
+		if r.Cache == nil && s.K == "" && s.N%3 == 0 {
+			local := map[string]bool{}
+			for _, l := range x.localBugIds(rs) {
+				local[l] = true
+			}
+			var only []string
+			refs, _ := r.Raw.ListRefs("refs/remotes/")
+			for _, ref := range refs {
+				p := strings.Split(ref, "/")
+				if len(p) == 5 && p[3] == "bugs" && !local[p[4]] {
+					only = append(only, p[4])
+				}
+			}
+			sort.Strings(only)
+			if len(only) > 0 {
+				id = only[s.B%len(only)]
+				x.probe("removal_of_tracking_only_entity")
+			}
+		}
 		if id == "" {
 			return fmt.Errorf("no bug")
 		}
